@@ -211,12 +211,36 @@ def run_queries(shard):
     return acc
 
 
+def run_multi(shard):
+    """multi-component patterns x multi-component targets with different numbers of matches per component"""
+    from chython import smiles
+    k, nsh, tier = shard
+    acc = Acc()
+    ppool = ['C', 'O', 'N', 'CC', 'CO', 'C=O', 'CN']
+    tpool = ['CCCC', 'OCCO', 'CCO', 'NCCN', 'CC(C)C', 'OC(O)O', 'C', 'CCN', 'C1CC1', 'OCC(O)CO']
+    pats = ['.'.join(c) for r in (2, 3) for c in itertools.combinations_with_replacement(ppool, r)]
+    tars = ['.'.join(c) for r in (2, 3) for c in itertools.combinations(tpool, r)]
+    if tier == 'quick':
+        tars = tars[::2]
+    for ti, ts in enumerate(tars):
+        if ti % nsh != k:
+            continue
+        t = smiles(ts)
+        for pi, ps in enumerate(pats):
+            if tier == 'quick' and ps.count('.') == 2 and (ti + pi) % 3:
+                continue
+            check_pair(acc, smiles(ps), t, 'multi ' + ps, 'multi ' + ts, scopes=False)
+    acc.sample({'multi-component patterns': pats[:5], 'targets': tars[:5]})
+    return acc
+
+
 def plan(tier, seed):
     nsh = 64
     return [Stage('molecule patterns x targets', run_pairs, [(k, nsh, tier) for k in range(nsh)],
                   'patterns D(<=4,1)+two-component x targets D(<=5,1)%s+unions; filter on/off; operators; every scope of <=4 atoms on a fixed subset' % (' ' if tier == 'quick' else '+D(6,1)')),
             Stage('patterns cut from target', run_cut, [(k, nsh, tier) for k in range(nsh)],
                   'every connected induced subgraph of every target as pattern; identity mapping present; automorphism mappings vs reference'),
+            Stage('multi-component patterns x targets', run_multi, [(k, nsh, tier) for k in range(nsh)], '2- and 3-component patterns over 7 fragments x unions of 2-3 of 10 molecules (unequal match counts per component)'),
             Stage('SMARTS queries x targets', run_queries, [(k, nsh, tier) for k in range(nsh)],
                   '%d SMARTS incl. ring closures, bond lists, two components x targets' % len(SMARTS))]
 
@@ -225,7 +249,10 @@ def replay(rec):
     # a replay re-runs the whole (small) stage family for the recorded pattern/target tags
     acc = Acc()
     tag = rec.get('target')
-    from chython import smarts
+    from chython import smarts, smiles
+    if tag and tag.startswith('multi '):
+        check_pair(acc, smiles(rec['pattern'][6:]), smiles(tag[6:]), rec['pattern'], tag)
+        return [f for f in acc.fails if f['key'] == rec['key']]
     specs = {s['tag']: s for s in M.scope(6, 1, elements=['N', 'O'], with_h=False, with_iso=False)}
 
     def find(tg):
